@@ -322,6 +322,9 @@ def build_value(world, dom, name):
     if isinstance(dom, S.Abstract):
         fn = AbstractFn(world, dom, name)
         return fn, Decoder(lambda m: {'$abstract': dom.name})
+    if isinstance(dom, S.Array):
+        from .arrays import build_array
+        return build_array(world, dom, name)
     if isinstance(dom, S.Nested):
         from .pipes import SNested
         vr = world.verifier
@@ -403,20 +406,71 @@ def sx_forall_range(interp, args, kwargs, node):
     ex = interp.ex
     vr = interp.world.verifier
     if vr.spec_mode == 'assume':
-        # in an assumed clause a universal must stay universal
+        # in an assumed clause a universal must stay universal; the body may fork (cell types),
+        # so it is summarised over all its paths into one formula
         i = z3.Int(ex.fresh_name('qi'))
-        vr.pending_quant.append(i)
         lo_t, hi_t = sym.as_int_term(lo), sym.as_int_term(hi)
-        body = interp.call(pred, [SInt(i)], {}, node)
-        bt = body.t if isinstance(body, SBool) else z3.BoolVal(bool(body))
-        vr.pending_quant.pop()
-        return mk_bool(z3.ForAll([i], z3.Implies(z3.And(i >= lo_t, i < hi_t), bt)))
+        parts = []
+        for extra, kind, val in vr.summarize_callable(pred, [SInt(i)], 'assume',
+                                                      extra_pc=[i >= lo_t, i < hi_t]):
+            if kind == 'exc':
+                continue
+            t = vr.as_bool_term(val)
+            if t is False:
+                continue
+            conj = [c for c in extra] + ([] if t is True else [t])
+            parts.append(z3.And(*conj) if conj else z3.BoolVal(True))
+        body = z3.Or(*parts) if parts else z3.BoolVal(False)
+        return mk_bool(z3.ForAll([i], z3.Implies(z3.And(i >= lo_t, i < hi_t), body)))
     i = z3.Int(ex.fresh_name('sk'))
     lo_t, hi_t = sym.as_int_term(lo), sym.as_int_term(hi)
     if not ex.branch(z3.And(i >= lo_t, i < hi_t)):
         return True
     vr.skolems.append(i)
     return interp.call(pred, [SInt(i)], {}, node)
+
+
+def values_equal(interp, a, b):
+    """equality of two argument values as a bool / z3 Bool; arrays pointwise at a skolem index"""
+    from .arrays import SArr
+    if isinstance(a, SArr) or isinstance(b, SArr):
+        if not (isinstance(a, SArr) and isinstance(b, SArr)) or len(a.dims) != 1 or len(b.dims) != 1:
+            return False
+        ex = interp.ex
+        if ex.branch(a.dims[0] != b.dims[0]):
+            return False
+        k = z3.Int(ex.fresh_name('sk'))
+        if not ex.branch(z3.And(k >= 0, k < a.dims[0])):
+            return True
+        x = a.at(interp, k)
+        y = b.at(interp, k)
+        if isinstance(x, (SBool, bool)) != isinstance(y, (SBool, bool)):
+            return False
+        return interp.eq_term(x, y)
+    if isinstance(a, (SBool, bool)) != isinstance(b, (SBool, bool)):
+        return False
+    return interp.eq_term(a, b)
+
+
+def sx_same_call(interp, args, kwargs, node):
+    """same_call('module:function', *args): the result of the call the code made to that (modular)
+    function on this path - after proving that the code called it with these very arguments.
+    Natively the spec simply calls the real function."""
+    vr = interp.world.verifier
+    target = args[0]
+    want = list(args[1:])
+    hits = [(k, v, r) for (k, v, r) in vr.ghost_calls if k == target]
+    if not hits:
+        raise Unsupported(f'spec refers to a call of {target} that the code did not make on this path', node)
+    key, vals, res = hits[-1]
+    conds = []
+    for w, v in zip(want, vals):
+        conds.append(values_equal(interp, w, v))
+    goal = interp._and(conds)
+    owner = getattr(vr.active, 'name', '?')
+    vr.oblige(f'{owner}/args@call:{target.split(":")[-1]}', 'pre@call',
+              goal if isinstance(goal, bool) else mk_bool(goal))
+    return res
 
 
 def sx_implies(interp, args, kwargs, node):
@@ -477,6 +531,8 @@ class Verifier:
         self.explorer.fork_site = lambda: self.interp.cur
         self.world.external['pyvc.spec.forall_range'] = Builtin('forall_range', sx_forall_range)
         self.world.external['pyvc.spec.implies'] = Builtin('implies', sx_implies)
+        self.world.external['pyvc.spec.same_call'] = Builtin('same_call', sx_same_call)
+        self.ghost_calls = []
         self.contracts = {}       # target -> Contract
         self.active = None        # contract / lemma under verification
         self.modular = {}
@@ -541,6 +597,33 @@ class Verifier:
             outer.branch_queries += sub.branch_queries
         return out
 
+    def summarize_callable(self, fn, args, mode, extra_pc=()):
+        """like summarize, for a closure value (e.g. the lambda of forall_range)"""
+        outer = self.world.explorer
+        sub = Explorer(outer.branch_timeout_ms)
+        sub.base_pc = list(outer.pc) + list(extra_pc)
+        sub.prefix = outer.fresh_name('q') + '.'
+        sub.floor_cache_seed = dict(outer.floor_cache)
+        sub.pipe_registry_seed = list(outer.pipe_registry)
+        sub.first_choice_seed = dict(outer.first_choice)
+        nbase = len(outer.pc)
+        self.world.explorer = sub
+        out = []
+        prev = self.spec_mode
+        self.spec_mode = mode
+        try:
+            def run():
+                try:
+                    return ('val', self.interp.call(fn, list(args), {}))
+                except PyExc as e:
+                    return ('exc', e)
+            for (kind, val), pc, notes in sub.paths(run):
+                out.append((pc[nbase + len(extra_pc):], kind, val))
+        finally:
+            self.world.explorer = outer
+            self.spec_mode = prev
+        return out
+
     def as_bool_term(self, v):
         if isinstance(v, SBool):
             return v.t
@@ -596,6 +679,14 @@ class Verifier:
             v = check_valid(self.world.explorer.pc + list(extra), g)
             t_ms += v.ms
             if v.status == 'sat' and v.model is not None:
+                small = [t for d in self.decoders.values() for t in getattr(d, 'small', [])]
+                if small:
+                    # prefer a counterexample with small arrays: it can be written out and replayed
+                    for cap in (2, 3, 5):
+                        v2 = check_valid(self.world.explorer.pc + list(extra) + [t <= cap for t in small], g)
+                        if v2.status == 'sat' and v2.model is not None:
+                            v.model = v2.model
+                            break
                 v.witness = {kk: d(v.model) for kk, d in self.decoders.items()}
             v.detail = detail
             rank = {'unsat': 0, 'unknown': 1, 'sat': 2}[v.status]
@@ -655,6 +746,7 @@ class Verifier:
         for e in c.ensures:
             self.assume_spec(e, vals + [res])
         self.world.trusted.add(f'modular: {key} used by its contract')
+        self.ghost_calls.append((key, list(vals), res))
         return True, res
 
     # -- verification of one contract ------------------------------------------------
@@ -733,6 +825,7 @@ class Verifier:
             self.records = []
             self.skolems = []
             self.decoders = {}
+            self.ghost_calls = []
             self.scenario_label = label
             self.in_body = False
             args = []
@@ -927,6 +1020,7 @@ class Verifier:
                 self.records = []
                 self.skolems = []
                 self.decoders = {}
+                self.ghost_calls = []
                 self.scenario_label = label
                 self.in_body = True
                 self.entered = True
